@@ -25,6 +25,7 @@ fn enc(c: &C) -> Vec<String> {
     w.0
 }
 fn dec(t: &[String]) -> Option<C> {
+    let (t, _) = split_flavour(t);
     let mut r = R::new(t);
     let ty = r.u64()?;
     let regions = r.list(Rec::get)?;
@@ -40,16 +41,18 @@ fn valid(c: &C) -> bool {
 }
 
 macro_rules! run_typed {
-    ($n:ty, $c:expr) => {{
+    ($n:ty, $c:expr, $fl:expr) => {{
         let c = $c;
-        let set: GIntervalIndexSet = c.regions.iter().map(|r| r.gr()).collect();
+        let fl: u64 = $fl;
+        // regions and tags carried by the flavour's BEDLike implementor (field variant rotating per record)
+        let set: GIntervalIndexSet = crate::with_bedlikes!(fl, &c.regions, |xs| xs.into_iter().collect());
         let mut d: BinnedCoverage<$n> = BinnedCoverage::new(&set, c.bin);
         let mut s: SparseBinnedCoverage<$n> = SparseBinnedCoverage::new(&set, c.bin);
         let mut w = W::new();
         w.n(c.ops.len());
-        for o in &c.ops {
+        for (oi, o) in c.ops.iter().enumerate() {
             match o {
-                Op::Tag(t, k) => { d.insert(&t.gr(), *k as $n); s.insert(&t.gr(), *k as $n); }
+                Op::Tag(t, k) => { crate::with_bedlike!(rot_flavour(fl, oi), t, |x| { d.insert(&x, *k as $n); s.insert(&x, *k as $n); }); }
                 Op::Reset => { d.reset(); s.reset(); }
             }
             let dv = d.get_coverage();
@@ -87,10 +90,12 @@ macro_rules! run_typed {
 
 fn exec(t: &[String]) -> Option<String> {
     let c = dec(t)?;
-    Some(if c.ty == 0 { run_typed!(i64, &c) } else { run_typed!(u64, &c) })
+    let fl = split_flavour(t).1;
+    Some(if c.ty == 0 { run_typed!(i64, &c, fl) } else { run_typed!(u64, &c, fl) })
 }
 
-fn shrink(t: &[String]) -> Vec<Vec<String>> {
+fn shrink(t: &[String]) -> Vec<Vec<String>> { shrink_flavoured(t, shrink0) }
+fn shrink0(t: &[String]) -> Vec<Vec<String>> {
     let Some(c) = dec(t) else { return vec![] };
     let mut out = vec![];
     for ops in shrink_vec(&c.ops) { out.push(C { ops, ..c.clone() }); }
@@ -148,6 +153,7 @@ fn gen(rng: &mut Rng, tier: Tier) -> Vec<Case> {
         let c = C { ty, regions, bin, ops };
         if valid(&c) { out.push(Case::new(if small { "boundary" } else { "random" }, enc(&c))); }
     }
+    add_flavours(rng, &mut out);
     out
 }
 
